@@ -899,5 +899,151 @@ theorem method_perm (env : Env) (T : Tables) (hT : T.WF) (d : Desc SortType) (na
   · rename_i hb; rw [hb] at hc
     exact cannedSortDesign_perm env T hT _ _ names hc.1 hc.2
 
+/-! ## never more than was given: the sub-multiset versions (no coverage hypothesis) -/
+
+theorem SubMultiset.refl (l : List Name) : SubMultiset l l := fun _ => Nat.le_refl _
+
+theorem SubMultiset.trans {a b c : List Name} (h1 : SubMultiset a b) (h2 : SubMultiset b c) : SubMultiset a c :=
+  fun x => Nat.le_trans (h1 x) (h2 x)
+
+theorem SubMultiset.of_perm {a b : List Name} (h : a.Perm b) : SubMultiset a b :=
+  fun x => Nat.le_of_eq (h.count_eq x)
+
+theorem SubMultiset.append {a a' b b' : List Name} (h1 : SubMultiset a a') (h2 : SubMultiset b b') :
+    SubMultiset (a ++ b) (a' ++ b') := fun x => by
+  have := h1 x; have := h2 x; simp only [count_append]; omega
+
+theorem SubMultiset.mem {a b : List Name} (h : SubMultiset a b) {n : Name} (hn : n ∈ a) : n ∈ b := by
+  have := h n
+  have h1 : 0 < a.count n := count_pos_iff.mpr hn
+  exact count_pos_iff.mp (by omega)
+
+theorem flatten_sortRecurse_sub (m : List Name → Blk) (hm : ∀ l, SubMultiset (m l).flatten l) (b : Blk) :
+    SubMultiset (sortRecurse m b).flatten b.flatten := by
+  induction b using Blk.rec (motive_2 := fun bs =>
+      SubMultiset (Blk.flattenList (sortRecurseList m bs)) (Blk.flattenList bs)) with
+  | names l =>
+    cases l with
+    | nil => exact SubMultiset.refl _
+    | cons a r => exact hm _
+  | blocks bs ih => exact ih
+  | nil => exact SubMultiset.refl _
+  | cons b r ihb ihr =>
+    simp only [sortRecurseList, Blk.flattenList]
+    exact SubMultiset.append ihb ihr
+
+theorem sortWith_sub {τ : Type} (method : Desc τ → List Name → Blk) (ds : List (Desc τ)) (names : List Name)
+    (hm : ∀ d l, SubMultiset (method d l).flatten l) : SubMultiset (sortWith method ds names) names := by
+  unfold sortWith
+  suffices h : ∀ (ds : List (Desc τ)) (b : Blk), SubMultiset b.flatten names →
+      SubMultiset (Blk.flattenList (ds.foldl (fun blocks d => descStep (method d) blocks) [b])) names by
+    exact h ds (.names names) (SubMultiset.refl _)
+  intro ds
+  induction ds with
+  | nil => intro b hb; simpa [Blk.flattenList] using hb
+  | cons d r ih =>
+    intro b hb
+    simp only [foldl_cons, descStep, map_cons, map_nil]
+    apply ih
+    refine (flatten_sortRecurse_sub (method d) (hm d) (.blocks [b])).trans ?_
+    simpa [Blk.flatten, Blk.flattenList] using hb
+
+theorem sortByUnicodeLookup_sub (tagOf : Name → String) (ordered : List String) (asc : Bool)
+    (names : List Name) (hnd : ordered.Nodup) :
+    SubMultiset (sortByUnicodeLookup tagOf ordered asc names).flatten names := by
+  by_cases hne : ordered = []
+  · exact SubMultiset.of_perm (sortByUnicodeLookup_perm tagOf ordered asc names hnd (Or.inl hne))
+  · intro x
+    rw [(sortByUnicodeLookup_perm_filter tagOf ordered asc names hne hnd).count_eq]
+    exact filter_sublist.count_le x
+
+theorem basicMethod_sub (env : Env) (T : Tables) (hT : T.WF) (d : Desc Basic) (names : List Name) :
+    SubMultiset (basicMethod env T d names).flatten names := by
+  by_cases h : d.type = .category ∨ d.type = .block ∨ d.type = .script
+  · obtain ⟨hs, hb, hcat, _⟩ := hT
+    unfold basicMethod
+    rcases h with h | h | h <;> rw [h] <;> simp only
+    · exact sortByUnicodeLookup_sub _ _ _ _ hcat
+    · exact sortByUnicodeLookup_sub _ _ _ _ hb
+    · exact sortByUnicodeLookup_sub _ _ _ _ hs
+  · apply SubMultiset.of_perm
+    apply basicMethod_perm env T hT
+    cases ht : d.type <;> simp_all [BasicCovered]
+
+theorem method_sub (env : Env) (T : Tables) (hT : T.WF) (d : Desc SortType) (names : List Name) :
+    SubMultiset (method env T d names).flatten names := by
+  unfold method
+  split
+  · exact basicMethod_sub env T hT _ names
+  · unfold cannedSortDesign
+    have h1 := sortWith_sub (basicMethod env T) (cannedFirst d.pseudo) names (basicMethod_sub env T hT)
+    have h2 := sortWith_sub (basicMethod env T) (cannedSecond d.pseudo)
+      (sortWith (basicMethod env T) (cannedFirst d.pseudo) names) (basicMethod_sub env T hT)
+    simp only [Blk.flatten]
+    split
+    · exact h2.trans h1
+    · exact (SubMultiset.of_perm (reverse_perm _)).trans (h2.trans h1)
+
+/-! ## the empty list, the empty descriptor list -/
+
+theorem flatten_sortRecurse_nil (m : List Name → Blk) (b : Blk) :
+    b.flatten = [] → (sortRecurse m b).flatten = [] := by
+  induction b using Blk.rec (motive_2 := fun bs =>
+      Blk.flattenList bs = [] → Blk.flattenList (sortRecurseList m bs) = []) with
+  | names l =>
+    intro h
+    cases l with
+    | nil => rfl
+    | cons a r => simp [Blk.flatten] at h
+  | blocks bs ih => intro h; exact ih h
+  | nil => rfl
+  | cons b r ihb ihr =>
+    rename_i h
+    simp only [sortRecurseList, Blk.flattenList, append_eq_nil_iff] at h ⊢
+    exact ⟨ihb h.1, ihr h.2⟩
+
+theorem sortWith_nil {τ : Type} (method : Desc τ → List Name → Blk) (ds : List (Desc τ)) :
+    sortWith method ds [] = [] := by
+  unfold sortWith
+  suffices h : ∀ (ds : List (Desc τ)) (b : Blk), b.flatten = [] →
+      Blk.flattenList (ds.foldl (fun blocks d => descStep (method d) blocks) [b]) = [] by
+    exact h ds (.names []) rfl
+  intro ds
+  induction ds with
+  | nil => intro b hb; simpa [Blk.flattenList] using hb
+  | cons d r ih =>
+    intro b hb
+    simp only [foldl_cons, descStep, map_cons, map_nil]
+    apply ih
+    apply flatten_sortRecurse_nil
+    simpa [Blk.flatten, Blk.flattenList] using hb
+
+/-- the `while glyphNames` loop needs at most one round per waiting name: more fuel changes nothing -/
+theorem partnersLoop_fuel (env : Env) (pseudo : Bool) (fuel k : Nat) (rest order : List Name)
+    (hf : rest.length ≤ fuel) :
+    partnersLoop env pseudo (fuel + k) rest order = partnersLoop env pseudo fuel rest order := by
+  induction fuel generalizing rest order with
+  | zero =>
+    have : rest = [] := by cases rest <;> simp_all
+    subst this
+    cases k <;> simp [partnersLoop]
+  | succ fuel ih =>
+    cases rest with
+    | nil => rw [show fuel + 1 + k = (fuel + k) + 1 by omega]; simp [partnersLoop]
+    | cons g rest =>
+      simp only [length_cons, Nat.add_le_add_iff_right] at hf
+      rw [show fuel + 1 + k = (fuel + k) + 1 by omega]
+      unfold partnersLoop
+      cases hc : env.closeRelativeFor g pseudo with
+      | none => simp only; exact ih _ _ hf
+      | some c =>
+        simp only
+        split
+        · rename_i hin
+          have hmem : c ∈ rest := by simpa using hin
+          have hl : (rest.erase c).length ≤ fuel := by rw [length_erase_of_mem hmem]; omega
+          exact ih _ _ hl
+        · exact ih _ _ hf
+
 end NameSort
 end DefconModel
